@@ -25,6 +25,8 @@ class AlphaVectorPolicy(ValueBasedTabularPOMDPPolicy):
         elif isinstance(belief, Belief):
             ss, b = belief
             assert len(ss) == len(b)
+            state_probs = dict(zip(ss, b))
+            b = [state_probs.get(s, 0.0) for s in self.pomdp.state_list]
         elif isinstance(belief, (list, tuple, np.array)):
             b = belief
         return b
